@@ -56,9 +56,12 @@ func main() {
 				x.siteIDs()
 				var ss []string
 				for in, sn := range x.sites {
-					if strings.HasPrefix(sn, "call:") || strings.HasPrefix(sn, "defer:") {
+					if strings.HasPrefix(sn, "call:") || strings.HasPrefix(sn, "defer:") || strings.HasPrefix(sn, "mapupdate") {
 						ss = append(ss, fmt.Sprintf("%s\t%s", v.prog.Fset.Position(in.Pos()), sn))
 					}
+				}
+				for in, sn := range x.siteAlias {
+					ss = append(ss, fmt.Sprintf("%s\t%s", v.prog.Fset.Position(in.Pos()), sn))
 				}
 				for _, li := range x.loops {
 					ss = append(ss, fmt.Sprintf("%s\tloop %d", v.prog.Fset.Position(token.Pos(x.headPos(li.head))), li.ordinal))
